@@ -475,11 +475,34 @@ def _starting_labels(ctx, f, fit):
             while t[0] == "un" and t[1] == "not":
                 t, outcome = t[2], not outcome
             conds.append(norm_cmp(t, outcome) or (t, outcome))
+        where = [ast.unparse(t)[:50] + f"={o}" for t, o in v.conds]
+        inner = desc
+        while inner[0] == "call" and inner[1] == "builtins.bool" and \
+                len(inner[2]) == 1:
+            inner = inner[2][0]
+        if desc[0] != "const" and inner[0] == "cmp":
+            # the direction is the *value* of a comparison (desc = a >= b,
+            # results looked up under it): one case per outcome
+            from ..tutil import map_term
+            for val in (True, False):
+                def sub(x, val=val):
+                    def g(y):
+                        if y == inner or y == desc:
+                            return ("const", val)
+                        if y[0] == "call" and y[1] == "builtins.bool" and \
+                                y[2] == (("const", val),):
+                            return ("const", val)
+                        return y
+                    return normalise(map_term(x, g))
+                facts.append({
+                    "lab": sub(lab), "cnt": sub(cnt), "name": sub(name),
+                    "desc": ("const", val),
+                    "conds": conds + [norm_cmp(inner, val) or (inner, val)],
+                    "where": where + [show(inner, 50) + f"={val}"]})
+            continue
         facts.append({"lab": lab, "cnt": cnt, "name": name, "desc": desc,
-                      "conds": conds,
-                      "where": [ast.unparse(t)[:50] + f"={o}"
-                                for t, o in v.conds]})
-    ctx.floor("C07a-starting-label-paths", len(facts), 4)
+                      "conds": conds, "where": where})
+    ctx.floor("C07a-starting-label-paths", len(facts), 3)
 
     def ul_desc(lt):
         """direction constant of a psms._update_labels(...) term"""
@@ -578,58 +601,125 @@ def _starting_labels(ctx, f, fit):
 
 
 def _best_feature_loop(ctx, f):
+    """Sink-driven: the function returns (feature, count, labels,
+    direction).  Each component is followed back to its definition inside
+    the loop over the directions - through a record tuple that is unpacked
+    after the loop, or, for the labels, to a call after the loop that is a
+    function of the returned feature and direction."""
+    from ..tutil import bound_args, bound_margs, no_uids
+    from ..inline import _loop_level_jumps
     prog = ctx.prog
-    loops = [n for n in ast.walk(f.node) if isinstance(n, ast.For)
-             and isinstance(n.iter, (ast.Tuple, ast.List))]
+    cfg = CFG(f.node)
+    du = DefUse(prog, f)
+    T = Terms(du, phi_vars=True)
+    loops = []
+    for n in walk_own(f.node):
+        if isinstance(n, ast.For):
+            it = T.of(n.iter)
+            if it[0] in ("tuple", "list") and it[1] and all(
+                    x[0] == "const" and isinstance(x[1], bool)
+                    for x in it[1]):
+                loops.append((n, it))
     ctx.require(len(loops) == 1, f"{f.qual}: direction loop not found")
-    lp = loops[0]
-    vals = sorted(ast.unparse(e) for e in lp.iter.elts)
-    ctx.check(vals == ["False", "True"], "C07a-both-directions", f,
+    lp, it = loops[0]
+    vals = sorted(x[1] for x in it[1])
+    ctx.check(vals == [False, True], "C07a-both-directions", f,
               "the best feature is searched in both score directions",
-              f"loop iterates over {ast.unparse(lp.iter)}", node=lp)
-    early = [n for n in ast.walk(lp) if isinstance(n, (ast.Break,
-                                                        ast.Return))]
+              f"loop iterates over {show(it, 60)}", node=lp)
+    early = [n for n in _loop_level_jumps(lp.body)
+             if isinstance(n, ast.Break)] + [
+        n for n in ast.walk(lp) if isinstance(n, ast.Return)]
     ctx.check(not early, "C07a-both-directions-no-early-exit", f,
               "both directions are always examined (no break/return in the "
               "loop)",
               "the loop over the directions can stop early: a strong "
               "lower-is-better feature is never considered once any "
               "higher-is-better feature accepts a PSM", node=lp)
-    rets = [n for n in ast.walk(f.node) if isinstance(n, ast.Return)]
-    ctx.require(len(rets) == 1 and isinstance(rets[0].value, ast.Tuple)
-                and len(rets[0].value.elts) == 4
-                and all(isinstance(e, ast.Name)
-                        for e in rets[0].value.elts),
-                f"{f.qual}: expected a 4-tuple of names as return")
-    cfg = CFG(f.node)
-    du = DefUse(prog, f)
-    T = Terms(du, phi_vars=True)
-    # the in-loop definition of each returned variable, its value and the
-    # conditions (decided inside the loop) under which it is executed
-    slots = {}
-    for key, e in zip(("feat", "cnt", "lab", "desc"), rets[0].value.elts):
-        inloop = [d for d in du.defs_of(e) if d.node is not None
-                  and inside(d.node, lp) and d.node is not lp]
-        ctx.require(len(inloop) == 1,
-                    f"{f.qual}: '{e.id}' is assigned {len(inloop)} times in "
-                    "the direction loop; rule C07a needs re-reading")
-        d = inloop[0]
+    rets = [n for n in walk_own(f.node) if isinstance(n, ast.Return)
+            and n.value is not None]
+    ctx.require(len(rets) == 1, f"{f.qual}: expected one return")
+    rt = T.of(rets[0].value)
+    ctx.require(rt[0] == "tuple" and len(rt[1]) == 4,
+                f"{f.qual}: expected a 4-tuple as return")
+    comps = dict(zip(("feat", "cnt", "lab", "desc"), rt[1]))
+    loop_elem = ("elem", it)
+
+    def inloop(t):
+        """[(value term, node)] of the definitions of ``t`` inside the
+        direction loop; None when ``t`` is not loop-carried state"""
+        if t[0] == "var":
+            out = []
+            for d in T.var_defs.get(t, ()):
+                if d.node is not None and inside(d.node, lp) and \
+                        d.node is not lp:
+                    out.append((T.of_def(d), d.node))
+            return out
+        if t[0] == "item" or (t[0] == "sub" and t[2][0] == "const"
+                              and isinstance(t[2][1], int)):
+            i = t[2] if t[0] == "item" else t[2][1]
+            base = inloop(t[1])
+            if base is None:
+                return None
+            return [(v[1][i], n) if v[0] == "tuple" and isinstance(i, int)
+                    and i < len(v[1]) else (("item", v, i), n)
+                    for v, n in base]
+        return None
+
+    def defs_in_loop(name_node, path, depth=0):
+        out = []
+        for d in du.defs_of(name_node):
+            if d.node is None or d.node is lp:
+                continue
+            if inside(d.node, lp):
+                v = T.of_def(d)
+                for i in path:
+                    v = v[1][i] if v[0] == "tuple" and isinstance(
+                        i, int) and i < len(v[1]) else ("item", v, i)
+                out.append((v, d.node))
+            elif d.kind == "assign" and isinstance(d.value, ast.Name) \
+                    and depth < 4:
+                p_ = tuple((d.extra or {}).get("path") or ())
+                out.extend(defs_in_loop(d.value, p_ + tuple(path),
+                                        depth + 1))
+        return out
+
+    def conds_of(node):
         conds = set()
-        for test, outcome in cfg.necessary_conditions(d.node):
+        for test, outcome in cfg.necessary_conditions(cfg.stmt_of(node)):
             if not inside(test, lp):
                 continue
             t = T.of(test)
             while t[0] == "un" and t[1] == "not":
                 t, outcome = t[2], not outcome
             conds.add(norm_cmp(t, outcome) or (t, outcome))
-        slots[key] = (e.id, d, T.of_def(d), conds)
-    same = len({frozenset(v[3]) for v in slots.values()}) == 1
-    cnt_name, _d, cnt_val, conds = slots["cnt"]
+        return conds
+
+    elts = rets[0].value.elts if isinstance(
+        rets[0].value, ast.Tuple) else [None] * 4
+    slots = {}
+    for (key, t), e in zip(comps.items(), elts):
+        ds = inloop(t)
+        if ds is None and isinstance(e, ast.Name):
+            # a name with a single definition is its value in the term
+            # language: go back to the definitions themselves (through a
+            # record that is unpacked after the loop)
+            ds = defs_in_loop(e, ())
+        if key == "lab" and not ds:
+            slots[key] = None       # computed after the loop, see below
+            continue
+        ctx.require(ds is not None and len(ds) == 1,
+                    f"{f.qual}: the returned {key} ({show(t, 60)}) has "
+                    f"{len(ds or [])} definitions in the direction loop; "
+                    "rule C07a needs re-reading")
+        v, node = ds[0]
+        slots[key] = (show(t, 30), node, v, conds_of(node))
+    live = [v for v in slots.values() if v is not None]
+    same = len({frozenset(v[3]) for v in live}) == 1
+    _n, cnt_node, cnt_val, conds = slots["cnt"]
     better = [c for c in conds if c[0] in ("lt", "le")
-              and c[1][0] == "var" and c[1][1] == cnt_name
+              and no_uids(c[1]) == no_uids(comps["cnt"])
               and c[2] == cnt_val]
     ok = same and len(conds) == 1 and len(better) == 1
-    loop_elem = ("elem", T.of(lp.iter))
     ok_desc = slots["desc"][2] == loop_elem
     ctx.check(ok and ok_desc, "C07a-best-updated-together", f,
               "feature, count, labels and direction of the best candidate "
@@ -638,30 +728,40 @@ def _best_feature_loop(ctx, f):
               "in-loop updates: " + "; ".join(
                   f"{v[0]} := {show(v[2], 50)} under "
                   f"{sorted(show(c, 60) for c in v[3])}"
-                  for v in slots.values()),
-              node=slots["cnt"][1].node)
+                  for v in live),
+              node=cnt_node)
     if ok and ok_desc:
-        lab = slots["lab"][2]
-        feat = slots["feat"][2]
+        if slots["lab"] is not None:
+            lab, lab_node = slots["lab"][2], slots["lab"][1]
+            feat, want_desc = slots["feat"][2], loop_elem
+        else:
+            # labels computed once, after the loop, for the winner: they
+            # must be a function of the returned feature and direction
+            lab, lab_node = comps["lab"], rets[0]
+            feat, want_desc = comps["feat"], comps["desc"]
         ok_l = False
-        is_m = lab[0] == "mcall" and lab[2] == "_update_labels"
-        is_f = lab[0] == "call" and str(lab[1]).endswith("._update_labels")
-        if is_m or is_f:
-            args, kws = (lab[3], dict(lab[4])) if is_m else (
-                lab[2], dict(lab[3]))
-            di = 2 if is_m else 3
-            dterm = kws.get("desc", args[di] if len(args) > di else None)
-            sc = kws.get("scores", args[0] if args else None)
-            fi = 1 if is_m else 2
-            fterm = kws.get("eval_fdr", args[fi] if len(args) > fi else None)
+        b = None
+        if lab[0] == "mcall" and lab[2] == "_update_labels":
+            b = bound_margs(prog, lab)
+            if b is None:
+                args, kws = lab[3], dict(lab[4])
+                b = dict(kws)
+                for i_, nm in enumerate(("scores", "eval_fdr", "desc")):
+                    if i_ < len(args):
+                        b.setdefault(nm, args[i_])
+        elif lab[0] == "call" and str(lab[1]).endswith("._update_labels"):
+            b = bound_args(prog, lab)
+        if b is not None:
             p_fdr = [p for p in f.params if p != "self"][0]
-            ok_l = dterm == loop_elem and sc is not None and any(
-                x == feat for x in walk_term(sc)) and fterm == (
-                    "param", p_fdr)
+            sc = b.get("scores")
+            ok_l = no_uids(b.get("desc", ("const", True))) == no_uids(
+                want_desc) and sc is not None and any(
+                no_uids(x) == no_uids(feat) for x in walk_term(sc)) and \
+                b.get("eval_fdr") == ("param", p_fdr)
         ctx.check(ok_l, "C07a-labels-of-best", f,
                   "the labels returned are those of the winning feature in "
                   "the winning direction",
-                  f"labels = {show(lab, 160)}", node=slots["lab"][1].node)
+                  f"labels = {show(lab, 160)}", node=lab_node)
     # the candidate count is the count of the candidate feature in the
     # candidate direction
     cnt_ok = any(
@@ -671,7 +771,7 @@ def _best_feature_loop(ctx, f):
         for x in walk_term(cnt_val))
     ctx.check(cnt_ok, "C07a-count-of-direction", f,
               "the candidate count is computed in the loop's direction",
-              f"count = {show(cnt_val, 160)}", node=slots["cnt"][1].node)
+              f"count = {show(cnt_val, 160)}", node=cnt_node)
 
 
 # ------------------------------------------------------------------ b
